@@ -603,6 +603,9 @@ def install(w):
     M['panicking::begin_panic'] = begin_panic
     M['panicking::assert_failed'] = lambda ex, c, a: _panic('assertion `left == right` failed: %r vs %r' % (deref(a[1]), deref(a[2])))
     M['rt::panic_fmt'] = begin_panic
+    # re-raising a caught panic payload / panicking with a payload: unwinds like any other panic
+    for _n in ('resume_unwind', 'panic::resume_unwind', 'panic_any', 'panic::panic_any'):
+        M[_n] = lambda ex, c, a: _panic('panic with payload: %r' % (a[0] if a else '',))
 
     # logging front end: the static max level is Off in every build we model
     M['max_level'] = lambda ex, c, a: Enum('LevelFilter', 'Off', 0, [])
